@@ -10,6 +10,7 @@ import (
 	"fmt"
 	"os"
 	"strings"
+	"time"
 
 	"github.com/iotaledger/hive.go/ds"
 	"github.com/iotaledger/hive.go/ds/orderedmap"
@@ -864,6 +865,26 @@ func directedSets() (inits [][]uint32, hs [][]op) {
 	return
 }
 
+var hangs int
+
+// guarded runs one lockstep case under a watchdog; a hang or a panic of the real code becomes an oracle failure
+func guarded(st *vx.Stats, desc any, f func()) {
+	done := make(chan any, 1)
+	go func() {
+		defer func() { done <- recover() }()
+		f()
+	}()
+	select {
+	case p := <-done:
+		if p != nil {
+			st.Fail(map[string]any{"sig": "", "kind": "panic in a sequential history", "panic": fmt.Sprint(p), "case": desc})
+		}
+	case <-time.After(6 * time.Second):
+		hangs++
+		st.Fail(map[string]any{"sig": "", "kind": "a sequential history did not return within 6 s (lock never released?)", "case": desc})
+	}
+}
+
 func hist(args []string) {
 	fs := flag.NewFlagSet("hist", flag.ExitOnError)
 	n := fs.Int("n", 400, "")
@@ -879,12 +900,21 @@ func hist(args []string) {
 		Type:   "case",
 		Footer: "Definition M := Eval vm_compute in mismatches cases.\nPrint M.\n",
 	}
+	// known finding: Apply with an element in both mutation sets reports it as added and as deleted though its membership is unchanged
+	{
+		s := ds.NewSet[uint32]()
+		m := s.Apply(mutsOf([]uint32{1}, []uint32{1}))
+		if s.Size() == 0 && eqSlice(m.AddedElements().ToSlice(), []uint32{1}) && eqSlice(m.DeletedElements().ToSlice(), []uint32{1}) {
+			st.Known = append(st.Known, "apply-overlap-reports-unchanged-element")
+		}
+	}
 	inits, hs := directedSets()
 	for i := range hs {
-		emitSet(cf, st, inits[i], hs[i], "directed")
+		i := i
+		guarded(st, hs[i], func() { emitSet(cf, st, inits[i], hs[i], "directed") })
 	}
 	emitMap(cf, st, []op{{K: "Set", E: 1, V: 1}, {K: "Set", E: 2, V: 2}, {K: "Set", E: 3, V: 3}, {K: "Set", E: 2, V: 9}, {K: "MDelete", E: 2}, {K: "RevPairs"}, {K: "MDelete", E: 1}, {K: "Head"}, {K: "MDelete", E: 3}, {K: "Tail"}, {K: "Set", E: 2, V: 1}, {K: "Pairs", N: 1}}, "directed")
-	for cf.Len() < *n {
+	for tries := 0; cf.Len() < *n && tries < 2**n && len(st.OracleFailures) < 20 && hangs < 3; tries++ {
 		rr := r.Fork()
 		u := universe(rr)
 		l := 3 + rr.Intn(*maxLen)
@@ -895,15 +925,17 @@ func hist(args []string) {
 			for i := range h {
 				h[i] = genSetOp(rr, u)
 			}
-			emitSet(cf, st, sub(rr, u), h, "random")
+			init := sub(rr, u)
+			guarded(st, map[string]any{"init": init, "history": h}, func() { emitSet(cf, st, init, h, "random") })
 		case k < 85:
 			h := make([]op, l)
 			for i := range h {
 				h[i] = genMapOp(rr, u)
 			}
-			emitMap(cf, st, h, "random")
+			guarded(st, h, func() { emitMap(cf, st, h, "random") })
 		default:
-			emitArith(cf, st, genArith(rr, 2+l/2), "random")
+			ah := genArith(rr, 2+l/2)
+			guarded(st, ah, func() { emitArith(cf, st, ah, "random") })
 		}
 	}
 	if err := cf.Write(*out); err != nil {
